@@ -25,16 +25,18 @@ RULE = (
     "one evaluation = one seeded history of 5-40 ownership operations over 2-3 projects and a pool of free modules / "
     "patterns (attach_module, new_module, += with modules, patterns and lists, attach twice, attach an object owned by "
     "another project, attach_pattern with pattern / clone / None, note.mod get/set for module numbers at modules, gaps, "
-    "zero and beyond the end, save -> restart -> load incl. files with module sections blanked to SEND); after every op "
+    "zero and beyond the end, save -> restart -> load incl. files with module sections blanked to SEND and files whose "
+    "module records had the exists bit of their stored flags word cleared / zeroed); after every op "
     "the index/parent/output invariant and the slot model are checked on every project. non-trivial = at least one "
     "refused foreign attach or one gap-filling attach or one restart occurred; distinct = distinct op lists"
 )
 STATE_MEASURE = "hash of (per project: slot occupancy pattern by module type, pattern kinds) after each op"
-COMPONENTS = {"real": ["Project.attach_module/new_module/__iadd__/attach_pattern", "Note.mod", "SunVoxReader (module positions, gaps)", "Project.chunks"], "stub": ["SimFile", "chunk stream rewriter (module section -> SEND)"]}
+COMPONENTS = {"real": ["Project.attach_module/new_module/__iadd__/attach_pattern", "Note.mod", "SunVoxReader (module positions, gaps)", "Project.chunks"], "stub": ["SimFile", "chunk stream rewriter (module section -> SEND, SFFF flag bits)"]}
 ASSUMPTIONS = [
     "re-attaching a *pattern* to the project that already owns it is not generated (the statement is silent, the code refuses)",
     "note.mod = m is generated only for modules of the note's own project or free modules",
     "trailing empty module positions are not preserved by a load (by design); gaps elsewhere are",
+    "after a restart from a file with cleared exists bits only the statement's invariants are asserted for the re-flagged records (position 0 holds the output module); untouched records keep their positions",
 ]
 
 
@@ -193,6 +195,27 @@ def blank_sections(data, which):
     return chunkio.join(out)
 
 
+def reflag_sections(data, which, zero=False):
+    """Stored-byte fault on the module records at the given positions: the "exists" bit of the
+    SFFF flags word is cleared (or the whole word zeroed), as a foreign writer or a flipped
+    stored byte would leave it."""
+    import struct
+
+    chunks = [(n, p) for _, n, p in chunkio.split(data)]
+    out = []
+    pos = -1
+    for n, p in chunks:
+        if n == b"SFFF":
+            pos += 1
+            if pos in which and len(p) >= 4:
+                (f,) = struct.unpack("<I", p[:4])
+                p = struct.pack("<I", 0 if zero else f & ~1) + p[4:]
+        elif n == b"SEND" and out and out[-1][0] == b"SEND":
+            pos += 1
+        out.append((n, p))
+    return chunkio.join(out)
+
+
 def execute(case):
     w = None
     violations = []
@@ -200,6 +223,7 @@ def execute(case):
     states = []
     log = []
     interesting = False
+    fired_reflag = [0]
     for i, op in enumerate(case["ops"]):
         k = op["k"]
         if k == "setup":
@@ -386,6 +410,9 @@ def execute(case):
                         probes["note_mod_at_gap"] = probes.get("note_mod_at_gap", 0) + 1
                 elif mode == 1:  # set to an attached module of this project
                     own = [kk for kk in w.slots[pi] if kk is not None]
+                    if not own:
+                        log.append((i, k, "note_mod_set", "skip", 0))
+                        continue
                     key = own[op.get("m", 0) % len(own)]
                     note.mod = w.mods[key]
                     if note.module != w.mods[key].index + 1 or note.mod is not w.mods[key]:
@@ -465,6 +492,13 @@ def execute(case):
                     if blank:
                         data = blank_sections(data, blank)
                         probes["restart_from_file_with_blanked_sections"] = probes.get("restart_from_file_with_blanked_sections", 0) + 1
+                reflagged = set()
+                if op.get("reflag"):
+                    reflagged = {j for j in range(len(p.modules)) if p.modules[j] is not None and j not in blank and (op["reflag"] >> (j % 12)) & 1}
+                    if reflagged:
+                        data = reflag_sections(data, reflagged, zero=bool(op.get("zero")))
+                        probes["restart_from_file_with_cleared_exists_flags"] = probes.get("restart_from_file_with_cleared_exists_flags", 0) + 1
+                        fired_reflag[0] += 1
                 ctx = Ctx(())
                 with active(ctx):
                     loaded = read_sunvox_file(ctx.new_stream(data, "arg"))
@@ -473,6 +507,12 @@ def execute(case):
                 while want and want[-1] is None:
                     want.pop()
                 got = [type(m).__name__ if m is not None else None for m in loaded.modules]
+                if reflagged:
+                    # which of the re-flagged records a loader keeps is not C14's business (position 0
+                    # is: the invariants below demand the output module there); the others must stay put
+                    n_ = max(len(want), len(got))
+                    want = [x for j, x in enumerate(want + [None] * (n_ - len(want))) if j not in reflagged]
+                    got = [x for j, x in enumerate(got + [None] * (n_ - len(got))) if j not in reflagged]
                 if got != want:
                     violations.append(_v("positions_preserved_by_load", after="save_load", detail={"op": i, "want": want[:12], "got": got[:12]}))
                 gotp = [None if x is None else type(x).__name__ for x in loaded.patterns]
@@ -531,7 +571,7 @@ def execute(case):
         log.append((i, k, after, outcome, st))
     return {
         "violations": violations,
-        "fired": {"refused_foreign_attach": probes.get("foreign_module_attach", 0) + probes.get("foreign_pattern_attach", 0), "restart": sum(1 for x in log if x[1] == "save_load")},
+        "fired": {"refused_foreign_attach": probes.get("foreign_module_attach", 0) + probes.get("foreign_pattern_attach", 0), "restart": sum(1 for x in log if x[1] == "save_load"), "stored_flag_bytes_cleared": fired_reflag[0]},
         "probes": probes,
         "nontrivial": [seeds.h64(case["ops"])] if interesting else [],
         "states": states,
@@ -565,6 +605,9 @@ def generate(seed, i, tier="quick"):
             op.update(pat=r.randrange(100), l=r.randrange(8), t=r.randrange(8), mode=r.choice([0, 0, 0, 1, 2]), sel=r.randrange(52), num=r.randrange(1000), m=r.randrange(1000))
         elif k == "save_load":
             op["gaps"] = r.getrandbits(30) if r.random() < 0.6 else 0
+            if r.random() < 0.25:
+                op["reflag"] = r.getrandbits(12) | (1 if r.random() < 0.5 else 0)
+                op["zero"] = r.random() < 0.3
         elif k == "wrap":
             op["v"] = r.getrandbits(50)
         elif k == "twin_meta":
